@@ -73,6 +73,10 @@ def run(chk: Check) -> None:
     required_override(chk)
     defaults(chk)
     typed_dynamic_leaf_checked(chk, 'DOM-verdict-not-dropped')
+    from .c07 import inputs_encoded_by_deepcopy
+    inputs_encoded_by_deepcopy(chk, 'PROV-read-only')
+    from .common import nothing_registered_before_validation
+    nothing_registered_before_validation(chk, 'GUARD-no-process-on-reject')
 
 
 # ---------------------------------------------------------------------- 1. no validation verdict is dropped
@@ -178,6 +182,8 @@ def verdicts(chk: Check) -> None:
     pops = [c for c in calls_in_func(vp, 'pop') if norm(c.func.value) == vp.params[1]]
     ok = ok and len(pops) == 1 and norm(pops[0].args[0]) == 'name' and norm(pops[0].args[1]) == 'UNSPECIFIED'
     chk.ob('DOM-verdict-not-dropped', vp, ok, 'every declared port is validated (a missing value as UNSPECIFIED) and removed from what remains for the dynamic check', kind='all-ports')
+    from .common import every_declared_port_validated
+    every_declared_port_validated(chk, 'DOM-verdict-not-dropped')
     vd = prog.func('ports.PortNamespace.validate_dynamic_ports')
     ffd = chk.ctx.facts.analyse(vd)
     rets_d = [n for n in ffd.cfg.nodes if n.kind == 'return' and isinstance(n.ast.value, ast.Call) and last_name(n.ast.value) == 'PortValidationError']
